@@ -48,6 +48,7 @@ type input struct {
 	L      []string   `json:"l,omitempty"`   // word list for the encoders
 	Env    [][]byte   `json:"env,omitempty"` // raw environment block of the child process
 	Cfg    int        `json:"cfg,omitempty"`
+	X      []string   `json:"x,omitempty"`  // extra environment entries NAME=@code (kind nbr)
 	M2     [][]string `json:"m2,omitempty"` // per field: tag "kind\x00value" pairs
 }
 
@@ -285,6 +286,8 @@ func run1(raw json.RawMessage, skipOut *bool) driver.Result {
 		return res
 	case "refs":
 		return runRefs(in)
+	case "nbr":
+		return runNeighbours(in)
 	case "casex":
 		res := runCaseShift(in, fail)
 		res.Direct = direct
@@ -478,6 +481,8 @@ func gen(r *coqfmt.Rng, n int, tier string) []json.RawMessage {
 		switch x := r.Intn(1000) / 10; {
 		case r.Intn(250) == 0:
 			add(genRefs(r))
+		case r.Intn(400) == 0:
+			add(genNeighbours(r))
 		case r.Intn(125) == 0: // child processes are expensive: ~0.8 %
 			add(input{K: "envp", Cfg: r.Intn(nEnvCfgs), Env: genEnvp(r)})
 		case x >= 94:
@@ -557,6 +562,7 @@ func corpus() []json.RawMessage {
 	refsCorpus(add)
 	tagsCorpus(add)
 	repFlagCorpus(add)
+	nbrCorpus(add)
 	return out
 }
 
